@@ -14,6 +14,9 @@ pub struct Profile {
     pub client_role: Role,
     /// Quiescence rounds after `Heal` (0 = no end-of-run convergence check).
     pub heal_rounds: u32,
+    /// Bit i set: client i is built with a different protocol (one more registration).
+    #[serde(default)]
+    pub wrong_proto: u8,
 }
 
 impl Default for Profile {
@@ -26,6 +29,7 @@ impl Default for Profile {
             server_role: Role::ServerOnly,
             client_role: Role::ClientOnly,
             heal_rounds: 10,
+            wrong_proto: 0,
         }
     }
 }
